@@ -391,6 +391,7 @@ func init() {
 			c.set(v)
 			return true
 		},
+		"vWaitGate": func(e *Engine, c *callCtx) bool { return true },
 		"vNote": func(e *Engine, c *callCtx) bool {
 			return true
 		},
